@@ -72,6 +72,16 @@ CHECKS["C16"] = dict(
     technique="Lean 4 proof over List Char (escape/scan induction) + byte-exact correspondence + sqlglot tree / DuckDB round-trip oracle",
 )
 
+CHECKS["C19"] = dict(
+    category="proof",
+    text="Lean 4 theorem C19_discipline_safe: for ANY number of threads and ANY schedule (one step = one shared-state access, finer than line granularity), every finished find-path call has used only the correctly built adjacency, "
+         "i.e. returns its serial result; obligation C19_code_is_safe (decide) ties the theorem to the shared-access program extracted from semantic_graph.py by an AST translator on every run (fail-closed on any other write to self.* on the query path); "
+         "proved counterexample schedule for the original in-place rebuild (repaired by fix b035043). Tie: controlled schedules (sys.settrace baton scheduler) on the real code: 2 threads x 1-2 pre-emptions at source lines, 3 threads, find_relationship_path and compile(): results equal serial results.",
+    design_ref="DESIGN.md §4 C19",
+    note="Assumes CPython GIL atomicity of single dict/attribute operations; adjacency values are abstract (built vs stale); the thread pool of server/connection.py (riffq, not installed) is not exercised; only semantic_graph.py carries shared planning state (scanned by the translator).",
+    technique="Lean 4 proof (invariant + induction over arbitrary schedules) over translator-regenerated access program + controlled-schedule correspondence",
+)
+
 NOT_APPLICABLE = {}
 
 
